@@ -412,14 +412,14 @@ func c19CoreFun(name string) c19Fun {
 // registration and case layout
 
 type c19Layout struct {
-	nReg, nUser, nShadow, nRedef int
+	nReg, nUser, nShadow, nRedef, nPos int
 }
 
 func c19GetLayout() c19Layout {
-	return c19Layout{nReg: len(c19Registry()), nUser: len(c19UserSigs()), nShadow: len(c19ShadowCases()), nRedef: len(c19RedefCases())}
+	return c19Layout{nReg: len(c19Registry()), nUser: len(c19UserSigs()), nShadow: len(c19ShadowCases()), nRedef: len(c19RedefCases()), nPos: c19PositionCaseCount()}
 }
 
-func (l c19Layout) enumerated() int { return l.nReg + l.nUser + l.nShadow + l.nRedef }
+func (l c19Layout) enumerated() int { return l.nReg + l.nUser + l.nShadow + l.nRedef + l.nPos }
 
 func c19RandomCases(tier string) int {
 	if tier == "thorough" {
@@ -435,8 +435,9 @@ func init() {
 			"(2) defun signatures: required 0..3 x optional 0..2 x rest x key 0..2 x k = 0..6; " +
 			fmt.Sprintf("(3) shadowing contexts: %d context shapes x %d builtin names x up to %d shadow values x k = 0..%d", len(c19Shapes), len(c19Targets), len(c19Shadows), c19ShadowMaxK) + ", the binding reached decided by evaluating (probe in the shadow body, function id on the error's call stack) and a control run that replaces the target call by a probe; " +
 			fmt.Sprintf("(4) one name defined more than once: %d placements of the call (after / between the definitions, in a function defined before / between / after them and invoked between / after them, the definitions in one package or in two) x %d definer pairs (defun/defmacro) x every ordered pair of %d different formals lists x k = 0..%d, the definition in force at the call decided by evaluating (a control run records what the name is bound to at the call's position; each definition body has its own probe). ", len(c19RedefPlaces), len(c19RedefDefiners), len(c19RedefFormals), c19RedefMaxK) +
+			fmt.Sprintf("(5) syntactic positions: %d places a call can be written in (body / initialisers / local function bodies of let, let*, flet, labels, macrolet in the paren and the bracket spelling of the binding entries, bracket-spelled formals, cond clauses, dotimes count/result/body, handler-bind handler expressions and bodies, lambda/defun/defmacro bodies, threading-macro operands, assignment values, unquoted parts and expansions of templates) x %d callees (core functions of arity 0/1/2, special operators, a macro, a defun) x k = 0..named+1, a control run deciding how often the place is evaluated; %d data positions (observed only) and %d call-shaped places that are not calls (binding entries, formals lists, threading steps: judged where docs/lint-checks.md documents the exclusion). ", len(c19Positions()), len(c19PosCalleeNames)+1, len(c19DataPositions), len(c19NonCalls)) +
 			"Each source is linted in the three configurations `elps lint` has (no workspace; --workspace with the file inside; --workspace reading stdin) and evaluated in a fresh runtime. " +
-			"SAMPLED part: the same four families under random neutral wrappers, argument expressions, names, line/column placement (and a third definition). " +
+			"SAMPLED part: the same five families under random neutral wrappers (incl. bracket-spelled ones), the bracket spelling of the shadowing shapes' binding entries, argument expressions, names, line/column placement (and a third definition). " +
 			"A cover key is (family, kind|signature class|shape, lint mode outcome, run-time outcome class, relation of k to the accepted range).",
 		Assumptions: []string{
 			"run-time binding failure of a call = the evaluation returns an error whose own source location is the call, whose message is one of the messages produced by (*LEnv).bind/bindFormalNext, and whose call-stack top is the callee (function id compared with the registry's); errors raised later by a builtin body or by a macro's expansion do not count",
@@ -444,6 +445,7 @@ func init() {
 			"completeness for defun signatures and user-arity is only demanded in the two --workspace configurations (user-arity is documented as requiring semantic analysis)",
 			"standard-library packages are outside 'core language': only 'reported => fails binding' is demanded for them",
 			"the control run (target replaced by (verif:probe 'c19-target)) establishes that the target is evaluated exactly once; templates violating that are reported as harness errors",
+			"syntactic positions: a place is an evaluated position iff the control run (target replaced by a probe) evaluates it exactly once; a call-shaped list at a place that is never evaluated (quoted data) is not a direct call and is not judged",
 			"a name defined more than once: the evaluator loads the file top to bottom and each defun/defmacro replaces the package's binding of the name, so a call is judged against the definition in force when the call is evaluated (observed, not derived from the text); a failing call of a user macro owes no report, a reported call that binds is a violation whatever it reaches",
 		},
 		Cases: func(tier string) int {
@@ -467,9 +469,18 @@ func c19Run(w *fw.W, idx int) {
 	case idx < l.nReg+l.nUser:
 		c19RunUserSig(w, c19UserSigs()[idx-l.nReg])
 	case idx < l.nReg+l.nUser+l.nShadow:
-		c19RunShadowCase(w, c19ShadowCases()[idx-l.nReg-l.nUser], nil)
-	case idx < l.enumerated():
+		sc := c19ShadowCases()[idx-l.nReg-l.nUser]
+		c19RunShadowCase(w, sc, nil)
+		if c19BracketSubset(sc) {
+			// the same case with the binding entries spelled [x init]; a finding the
+			// paren spelling does not show is keyed ...:only-when-wrapped
+			c19RunShadowCase(w, sc, &c19Wrap{Brackets: true, Names: []string{"bracket-entries"}})
+			w.Count("shadow_cases_enumerated_in_bracket_spelling", 1)
+		}
+	case idx < l.nReg+l.nUser+l.nShadow+l.nRedef:
 		c19RunRedefCase(w, c19RedefCases()[idx-l.nReg-l.nUser-l.nShadow])
+	case idx < l.enumerated():
+		c19RunPositionCase(w, idx-l.nReg-l.nUser-l.nShadow-l.nRedef)
 	default:
 		c19RunRandom(w, idx)
 	}
@@ -516,4 +527,10 @@ func c19Driver(d *fw.D) {
 	check("defun_signatures_enumerated", len(c19UserSigs()))
 	check("shadow_cases_enumerated", len(c19ShadowCases()))
 	check("redefined_cases_enumerated", len(c19RedefCases()))
+	check("position_cases_enumerated", c19PositionCaseCount())
+	// every position template must have been found evaluated exactly once by its
+	// control run (otherwise a harness-template:* violation was recorded as well)
+	if got := len(d.Sets["positions_evaluated_once"]); got != len(c19Positions()) {
+		d.Inconclusive(fmt.Sprintf("%d of %d position templates were found evaluated exactly once", got, len(c19Positions())))
+	}
 }
